@@ -184,4 +184,57 @@ theorem C05_header (cls : Nat) (c : Bool) (tag len : Nat) (rest : Bytes)
 example : RoundTrip (.int 64) ⟨false, some 40, true, false, false, 0⟩ (.int (-129)) :=
   C05_integer 64 (Or.inr rfl) _ _ (by decide) (by intro n h; cases h; decide)
 
+/-! ### Value-wrapper structs (most of the 195 schema types are a struct with one `Value` member)
+
+  A wrapper is transparent in both directions, so it round-trips whenever the wrapped primitive does. -/
+
+open Chf.Ber in
+theorem untagged_ok (p : Params) : ∀ n, (untagged p).tagNumber = some n → n < 9223372036854775808 := by
+  intro n h; simp [untagged] at h
+
+open Chf.Ber in
+theorem C05_wrapped_integer (w : Nat) (hw : w = 32 ∨ w = 64) (p : Params) (i : Int)
+    (h : -(2 : Int) ^ (w - 1) ≤ i ∧ i < (2 : Int) ^ (w - 1))
+    (hn : ∀ n, p.tagNumber = some n → n < 9223372036854775808) : RoundTrip (.wrap (.int w)) p (.int i) := by
+  have hi : -9223372036854775808 ≤ i ∧ i ≤ 9223372036854775807 := by
+    rcases hw with rfl | rfl
+    · have h1 : (2:Int) ^ (32 - 1) = 2147483648 := by decide
+      rw [h1] at h; omega
+    · have h1 : (2:Int) ^ (64 - 1) = 9223372036854775808 := by decide
+      rw [h1] at h; omega
+  exact wrap_rt (.int w) (.int i) false (fun _ => 2) (intBytes i) (fun q => by rw [marshal]) (fun _ => rfl) p hn
+    (fun q hq => by
+      have hq' : ∀ n, q.tagNumber = some n → n < 9223372036854775808 := by
+        rcases hq with rfl | rfl
+        · exact hn
+        · exact untagged_ok p
+      rw [rt_int w q i hi hq', C05_partial_int_width w i hw h])
+    (by decide) (by have := intBytes_length_le i; omega)
+
+open Chf.Ber in
+theorem C05_wrapped_enumerated (p : Params) (i : Int) (hi : -9223372036854775808 ≤ i ∧ i ≤ 9223372036854775807)
+    (hn : ∀ n, p.tagNumber = some n → n < 9223372036854775808) : RoundTrip (.wrap .enum) p (.int i) :=
+  wrap_rt .enum (.int i) false (fun _ => 10) (intBytes i) (fun q => by rw [marshal]) (fun _ => rfl) p hn
+    (fun q hq => rt_enum q i hi (by rcases hq with rfl | rfl; exact hn; exact untagged_ok p))
+    (by decide) (by have := intBytes_length_le i; omega)
+
+open Chf.Ber in
+theorem C05_wrapped_octet_string (p : Params) (bs : Bytes) (hn : ∀ n, p.tagNumber = some n → n < 9223372036854775808)
+    (hlen : bs.length + 44 < 9223372036854775808) : RoundTrip (.wrap .octets) p (.bytes bs) :=
+  wrap_rt .octets (.bytes bs) false (fun _ => 4) bs (fun q => by rw [marshal]) (fun _ => rfl) p hn
+    (fun q hq => rt_octets q bs (by rcases hq with rfl | rfl; exact hn; exact untagged_ok p) hlen)
+    (by decide) hlen
+
+open Chf.Ber in
+theorem C05_wrapped_string (d : Nat) (p : Params) (bs : Bytes) (hn : ∀ n, p.tagNumber = some n → n < 9223372036854775808)
+    (hd : stringTagOf p d < 9223372036854775808) (hlen : bs.length + 44 < 9223372036854775808) :
+    RoundTrip (.wrap (.str d)) p (.str bs) :=
+  wrap_rt (.str d) (.str bs) false (fun q => stringTagOf q d) bs (fun q => by rw [marshal])
+    (fun q => rfl) p hn
+    (fun q hq => by
+      rcases hq with rfl | rfl
+      · exact rt_str d _ bs hn hd hlen
+      · exact rt_str d _ bs (untagged_ok p) hd hlen)
+    hd hlen
+
 end Chf.Props.C05
